@@ -36,7 +36,7 @@ func run(c *hl.Ctx) error {
 	r := c.Rand()
 	n := c.Pick(3000, 60000)
 	for i := 0; i < n; i++ {
-		g := semlib.New(r, semlib.Opts{MaxDecls: 40, MaxDepth: 4, Underscore: true, QuotedKw: true, ErrSeeds: true, Nulls: true})
+		g := semlib.New(r, semlib.Opts{MaxDecls: 40, MaxDepth: 4, Underscore: true, QuotedKw: true, ErrSeeds: true, Nulls: true, SpecialNames: true})
 		src := g.Program()
 		cc, why := semlib.CoreCase(src)
 		if cc == nil {
